@@ -24,6 +24,9 @@
 //     splitter.split (base -> patches),  splitter.join (patches -> base)
 // as integers  round(value * 24 * 2^K)  (K = finest level; every correct value lies on that lattice, the harness refuses a value that
 // is further than 1e-6 away from it).  The harness only projects: what the mirrors and the numbers must be is decided by TLC.
+// "tuples":["t2","t3"] (quadrilaterals only) additionally builds the SYSTEM gate / muxer / splitter of a tuple space from the component
+// objects with Control::Asm::build_gate_tuple / build_muxer_tuple / build_splitter_tuple (2 and 3 components; t2 = (lagrange2,
+// discontinuous1), t3 = (lagrange2, discontinuous0, lagrange1)) and dumps them component-wise in the same way ("tups").
 #include "vmesh.hpp"
 #include "vmpi.hpp"
 #include <kernel/util/simple_arg_parser.hpp>
@@ -40,6 +43,8 @@
 #include <kernel/global/muxer.hpp>
 #include <kernel/global/splitter.hpp>
 #include <kernel/global/vector.hpp>
+#include <kernel/lafem/tuple_vector.hpp>
+#include <kernel/lafem/tuple_mirror.hpp>
 #include <control/domain/parti_domain_control.hpp>
 #include <control/asm/gate_asm.hpp>
 #include <control/asm/muxer_asm.hpp>
@@ -287,6 +292,220 @@ std::string dump_family(FILE* f, const char* name, bool values, Pdc<Shape_>& dom
   return "";
 }
 
+
+// ---- tuple spaces: the system objects built from the component objects ----------------------------------------------------------------------
+template<class Shape_, class Space_> struct Comp
+{
+  typedef MeshT<Shape_> MeshType;
+  typedef typename Pdc<Shape_>::LevelT LevelT;
+  typedef Trafo::Standard::Mapping<MeshType> TrafoT;
+  struct Bundle { TrafoT trafo; Space_ space; explicit Bundle(MeshType& m) : trafo(m), space(trafo) {} };
+  std::map<const LevelT*, std::unique_ptr<Bundle>> cache;
+  bool bary;
+  explicit Comp(bool b) : bary(b) {}
+  const Space_* space_of(const LevelT& l)
+  {
+    auto it = cache.find(&l);
+    if(it == cache.end()) it = cache.emplace(&l, std::unique_ptr<Bundle>(new Bundle(const_cast<MeshType&>(l.get_mesh())))).first;
+    return &it->second->space;
+  }
+  // the interpolant (bary families) or zero
+  void fill(VecT& v, const LevelT& l)
+  {
+    const Space_& sp = *space_of(l);
+    v = VecT(sp.get_num_dofs(), 0.0);
+    if(bary) { AffineFn<Shape_::dimension> fn; Assembly::Interpolator::project(v, fn, sp); }
+  }
+};
+
+template<std::size_t i_ = 0, class TM_> void put_tmirror(FILE* f, const TM_& m)
+{
+  if constexpr (i_ == 0) std::fputc('[', f);
+  if constexpr (i_ < std::size_t(TM_::num_blocks))
+  {
+    if(i_) std::fputc(',', f);
+    put_mirror(f, m.template at<int(i_)>());
+    put_tmirror<i_ + 1>(f, m);
+  }
+  else std::fputc(']', f);
+}
+template<std::size_t i_ = 0, class TV_> bool put_tvals(FILE* f, const TV_& v, int K, const bool* bary)
+{
+  bool on = true;
+  if constexpr (i_ == 0) std::fputc('[', f);
+  if constexpr (i_ < std::size_t(TV_::num_blocks))
+  {
+    if(i_) std::fputc(',', f);
+    if(bary[i_]) on = put_vals(f, v.template at<int(i_)>(), K); else std::fputs("[]", f);
+    on = put_tvals<i_ + 1>(f, v, K, bary) && on;
+  }
+  else std::fputc(']', f);
+  return on;
+}
+template<std::size_t i_ = 0, class TM_, class TV_> bool tmirror_fits(const TM_& m, const TV_& v)
+{
+  if constexpr (i_ < std::size_t(TM_::num_blocks)) return (m.template at<int(i_)>().size() == v.template at<int(i_)>().size()) && tmirror_fits<i_ + 1>(m, v);
+  else return true;
+}
+template<std::size_t i_ = 0, class TV_> void put_tsizes(FILE* f, const TV_& v)
+{
+  if constexpr (i_ == 0) std::fputc('[', f);
+  if constexpr (i_ < std::size_t(TV_::num_blocks))
+  {
+    std::fprintf(f, i_ ? ",%llu" : "%llu", (unsigned long long)v.template at<int(i_)>().size());
+    put_tsizes<i_ + 1>(f, v);
+  }
+  else std::fputc(']', f);
+}
+
+template<class Shape_, class... Spaces_>
+std::string dump_tuple(FILE* f, const char* name, const std::vector<std::string>& cnames, const std::vector<bool>& cbary, Pdc<Shape_>& domain, int K)
+{
+  typedef typename Pdc<Shape_>::LevelT LevelT;
+  constexpr std::size_t nc = sizeof...(Spaces_);
+  static_assert(nc == 2 || nc == 3, "two or three components");
+  typedef std::tuple<Comp<Shape_, Spaces_>...> Comps;
+  typedef typename std::conditional<nc == 2, LAFEM::TupleVector<VecT, VecT>, LAFEM::TupleVector<VecT, VecT, VecT>>::type TV;
+  typedef typename std::conditional<nc == 2, LAFEM::TupleMirror<MirT, MirT>, LAFEM::TupleMirror<MirT, MirT, MirT>>::type TM;
+  bool bary[3] = {cbary[0], cbary[1], nc > 2 ? bool(cbary[2]) : false};
+  Comps comps{Comp<Shape_, Spaces_>(false)...};
+  std::get<0>(comps).bary = bary[0]; std::get<1>(comps).bary = bary[1];
+  if constexpr (nc == 3) std::get<2>(comps).bary = bary[2];
+  auto& c0 = std::get<0>(comps); auto& c1 = std::get<1>(comps);
+  // fill a tuple vector with the component interpolants on a level
+  auto fill = [&](TV& v, const LevelT& l)
+  {
+    c0.fill(v.template at<0>(), l); c1.fill(v.template at<1>(), l);
+    if constexpr (nc == 3) std::get<2>(comps).fill(v.template at<2>(), l);
+  };
+  bool onlat = true;
+  std::fputs("{\"tu\":", f); put_str(f, name);
+  std::fputs(",\"comps\":[", f);
+  for(std::size_t k(0); k < nc; ++k) { if(k) std::fputc(',', f); put_str(f, cnames[k]); }
+  std::fputs("],\"virt\":[", f);
+  const std::size_t nv = domain.num_virt_local();
+  for(std::size_t i(0); i < nv; ++i)
+  {
+    auto& virt = domain.at(i);
+    if(i) std::fputc(',', f);
+    std::fprintf(f, "{\"vi\":%d", int(i));
+    const bool ghost = virt.is_ghost();
+    Global::Gate<VecT, MirT> g0, g1, g2;
+    Global::Gate<TV, TM> gs;
+    if(!ghost)
+    {
+      Control::Asm::asm_gate(virt, *c0.space_of(virt.level()), g0, true);
+      Control::Asm::asm_gate(virt, *c1.space_of(virt.level()), g1, true);
+      if constexpr (nc == 2) Control::Asm::build_gate_tuple(gs, g0, g1);
+      else
+      {
+        Control::Asm::asm_gate(virt, *std::get<2>(comps).space_of(virt.level()), g2, true);
+        Control::Asm::build_gate_tuple(gs, g0, g1, g2);
+      }
+      std::fputs(",\"gate\":{\"ranks\":[", f);
+      const auto& rk = gs.get_ranks();
+      for(std::size_t j(0); j < rk.size(); ++j) std::fprintf(f, j ? ",%d" : "%d", rk[j]);
+      std::fputs("],\"mir\":[", f);
+      const auto& mm = gs.get_mirrors();
+      for(std::size_t j(0); j < mm.size(); ++j) { if(j) std::fputc(',', f); put_tmirror(f, mm[j]); }
+      std::fputs("]}", f);
+      TV v; fill(v, virt.level());
+      gs.sync_0(v);
+      std::fputs(",\"sync0\":", f); onlat = put_tvals(f, v, K, bary) && onlat;
+    }
+    if(i >= 1)
+    {
+      Global::Muxer<VecT, MirT> m0, m1, m2;
+      Global::Muxer<TV, TM> ms;
+      Control::Asm::asm_muxer(virt, [&c0](const LevelT& dl) { return c0.space_of(dl); }, m0);
+      Control::Asm::asm_muxer(virt, [&c1](const LevelT& dl) { return c1.space_of(dl); }, m1);
+      TV tmpl; fill(tmpl, virt.is_child() ? virt.level_c() : virt.level());
+      if constexpr (nc == 2) Control::Asm::build_muxer_tuple(ms, tmpl, m0, m1);
+      else
+      {
+        Control::Asm::asm_muxer(virt, [&comps](const LevelT& dl) { return std::get<2>(comps).space_of(dl); }, m2);
+        Control::Asm::build_muxer_tuple(ms, tmpl, m0, m1, m2);
+      }
+      if(virt.is_child())
+      {
+        std::fprintf(f, ",\"mux\":{\"is_child\":%s,\"is_parent\":%s,\"pm\":", ms.is_child() ? "true" : "false", ms.is_parent() ? "true" : "false");
+        put_tmirror(f, ms.get_parent_mirror());
+        std::fputs(",\"cm\":[", f);
+        const auto& cm = ms.get_child_mirrors();
+        for(std::size_t j(0); j < cm.size(); ++j) { if(j) std::fputc(',', f); put_tmirror(f, cm[j]); }
+        std::fputs("]}", f);
+        TV vc, vc2; fill(vc, virt.level_c()); fill(vc2, virt.level_c()); vc2.format();
+        if(virt.is_parent())
+        {
+          TV vp, vpi; fill(vp, virt.level_p()); vp.format(); fill(vpi, virt.level_p());
+          ms.join(vc, vp);
+          std::fputs(",\"join\":", f); onlat = put_tvals(f, vp, K, bary) && onlat;
+          ms.split(vc2, vpi);
+        }
+        else
+        {
+          ms.join_send(vc);
+          ms.split_recv(vc2);
+        }
+        std::fputs(",\"split\":", f); onlat = put_tvals(f, vc2, K, bary) && onlat;
+      }
+    }
+    if(!ghost && virt.has_base())
+    {
+      Global::Splitter<VecT, MirT> s0, s1, s2;
+      Global::Splitter<TV, TM> ss;
+      Control::Asm::asm_splitter(virt, [&c0](const LevelT& dl) { return c0.space_of(dl); }, s0);
+      Control::Asm::asm_splitter(virt, [&c1](const LevelT& dl) { return c1.space_of(dl); }, s1);
+      TV tmpl; fill(tmpl, virt.level());
+      if constexpr (nc == 2) Control::Asm::build_splitter_tuple(ss, tmpl, s0, s1);
+      else
+      {
+        Control::Asm::asm_splitter(virt, [&comps](const LevelT& dl) { return std::get<2>(comps).space_of(dl); }, s2);
+        Control::Asm::build_splitter_tuple(ss, tmpl, s0, s1, s2);
+      }
+      const auto& mux = ss.get_muxer();
+      std::fprintf(f, ",\"spl\":{\"single\":%s,\"root\":%s,\"nbase\":", ss.is_single() ? "true" : "false", ss.is_root() ? "true" : "false");
+      put_tsizes(f, ss.get_base_vector_template());
+      std::fputs(",\"pm\":", f); put_tmirror(f, mux.get_parent_mirror());
+      std::fputs(",\"cm\":[", f);
+      const auto& cm = mux.get_child_mirrors();
+      for(std::size_t j(0); j < cm.size(); ++j) { if(j) std::fputc(',', f); put_tmirror(f, cm[j]); }
+      std::fputs("]}", f);
+      // the operations are called inside their documented precondition only (XASSERT of VectorMirror::gather / scatter_axpy: every
+      // component mirror is made for the size of the component vector); all processes of the layer agree on whether it holds
+      int enabled = 1;
+      if(!ss.is_single())
+      {
+        TV vl, vb; fill(vl, virt.level());
+        if(ss.is_root()) fill(vb, virt.level_b());
+        if(!tmirror_fits(mux.get_parent_mirror(), vl)) enabled = 0;
+        for(const auto& m : cm) if(!tmirror_fits(m, vb)) enabled = 0;
+        int all = 0;
+        virt.layer().comm().allreduce(&enabled, &all, std::size_t(1), Dist::op_min);
+        enabled = all;
+      }
+      std::fprintf(f, ",\"spl_enabled\":%s", enabled ? "true" : "false");
+      if(!ss.is_single() && enabled)
+      {
+        TV vl, vb; fill(vl, virt.level()); vl.format();
+        if(ss.is_root()) fill(vb, virt.level_b());
+        ss.split(vl, vb);
+        std::fputs(",\"ssplit\":", f); onlat = put_tvals(f, vl, K, bary) && onlat;
+        Global::Vector<TV, TM> gv(&gs);
+        fill(gv.local(), virt.level());
+        TV vj;
+        if(ss.is_root()) { fill(vj, virt.level_b()); vj.format(); }
+        ss.join(vj, gv);
+        if(ss.is_root()) { std::fputs(",\"sjoin\":", f); onlat = put_tvals(f, vj, K, bary) && onlat; }
+      }
+    }
+    std::fputc('}', f);
+  }
+  std::fputs("]}", f);
+  if(!onlat) return std::string("tuple ") + name + ": a value of a collective operation is not on the lattice 1/(24*2^K)";
+  return "";
+}
+
 template<class Shape_> std::string run_cfg(const vj::Value& c, const Dist::Comm& comm)
 {
   typedef MeshT<Shape_> MeshType;
@@ -444,6 +663,24 @@ template<class Shape_> std::string run_cfg(const vj::Value& c, const Dist::Comm&
     else w = "unknown family " + el;
     if(why.empty() && !w.empty()) why = "rank " + std::to_string(me) + ": " + w;
   }
+  std::fputs("],\"tups\":[", f);
+  if constexpr (std::is_same<Shape_, Shape::Hypercube<2>>::value)
+  {
+    typedef Space::Lagrange1::Element<TrafoT> L1; typedef Space::Lagrange2::Element<TrafoT> L2;
+    typedef Space::Discontinuous::Element<TrafoT, Space::Discontinuous::Variant::StdPolyP<0>> D0;
+    typedef Space::Discontinuous::Element<TrafoT, Space::Discontinuous::Variant::StdPolyP<1>> D1;
+    for(std::size_t e(0); c.has("tuples") && e < c["tuples"].size(); ++e)
+    {
+      const std::string tu = c["tuples"][e].as_str();
+      if(e) std::fputc(',', f);
+      std::string w;
+      if(tu == "t2") w = dump_tuple<Shape_, L2, D1>(f, "t2", {"lagrange2", "discontinuous1"}, {true, false}, domain, K);
+      else if(tu == "t3") w = dump_tuple<Shape_, L2, D0, L1>(f, "t3", {"lagrange2", "discontinuous0", "lagrange1"}, {true, true, true}, domain, K);
+      else w = "unknown tuple " + tu;
+      if(why.empty() && !w.empty()) why = "rank " + std::to_string(me) + ": " + w;
+    }
+  }
+  else if(c.has("tuples") && c["tuples"].size() > 0) { if(why.empty()) why = "tuple spaces are built on quadrilaterals only"; }
   std::fputs("]}\n", f);
   std::fclose(f);
   if(!exact) return "rank " + std::to_string(me) + ": a coordinate is not an integer at scale 2^K";
